@@ -6,13 +6,13 @@
 package main
 
 import (
-	"strconv"
-	"runtime"
-	"regexp"
 	"database/sql"
 	"database/sql/driver"
 	"errors"
 	"fmt"
+	"regexp"
+	"runtime"
+	"strconv"
 	"strings"
 	"sync"
 	"time"
@@ -21,16 +21,17 @@ import (
 )
 
 type vGate struct {
-	mu       sync.Mutex
-	name     string
-	count    int
-	failAt   int // 1-based index of the operation that fails (0 = never)
-	log      []string
-	delayQ   time.Duration // delay applied to query operations (outage simulation)
-	sched    *vSched       // optional scheduler (C16)
-	disabled bool
-	readOnly bool // every writing statement (and commit) fails: a store that still answers reads
-	refuse   bool // every operation fails at once: a server that is down and says so (connection refused)
+	mu        sync.Mutex
+	name      string
+	count     int
+	failAt    int // 1-based index of the operation that fails (0 = never)
+	log       []string
+	delayQ    time.Duration // delay applied to query operations (outage simulation)
+	delayNext time.Duration // delay applied to every row fetched from a result set (a source that streams slowly)
+	sched     *vSched       // optional scheduler (C16)
+	disabled  bool
+	readOnly  bool // every writing statement (and commit) fails: a store that still answers reads
+	refuse    bool // every operation fails at once: a server that is down and says so (connection refused)
 }
 
 var (
@@ -57,6 +58,9 @@ func (g *vGate) pass(op string) error {
 	delay := time.Duration(0)
 	if strings.HasPrefix(op, "query") {
 		delay = g.delayQ
+	}
+	if strings.HasPrefix(op, "next:") {
+		delay = g.delayNext
 	}
 	sched := g.sched
 	g.mu.Unlock()
@@ -206,6 +210,8 @@ func (w *vWorld) regate() (prim, cache *vGate) {
 	st := w.st
 	pf := fmt.Sprintf("%s/%s", st.Config.Base.DataDirectory, profileDBFilename)
 	cf := fmt.Sprintf("%s/%s", st.Config.Base.DataDirectory, cachedDBFilename)
+	// whatever initDB set on the handles is carried over to the gated ones
+	primMax, cacheMax := st.db.Stats().MaxOpenConnections, st.cacheDB.Stats().MaxOpenConnections
 	st.db.Close()
 	st.cacheDB.Close()
 	prim, cache = &vGate{name: pf}, &vGate{name: cf}
@@ -218,6 +224,8 @@ func (w *vWorld) regate() (prim, cache *vGate) {
 	st.db.SetMaxIdleConns(0)
 	st.cacheDB, err = sql.Open("verifgate", cf)
 	vMust(err)
+	st.db.SetMaxOpenConns(primMax)
+	st.cacheDB.SetMaxOpenConns(cacheMax)
 	return prim, cache
 }
 
